@@ -1,8 +1,9 @@
 (* C02 — Spatial search returns exactly the objects satisfying the geometric predicate.
    Only the property theorems, each closed by a lemma of Proofs/. *)
-From Flocq Require Import BinarySingleNaN.
+From Coq Require Import Reals.
+From Flocq Require Import Core BinarySingleNaN.
 From T38 Require Import Base.Bytes Model.Float32 Model.Collection Model.Search
-  Proofs.CollectionProofs Proofs.CollectionBounds Proofs.Float32Proofs Proofs.SearchProofs.
+  Proofs.CollectionProofs Proofs.CollectionBounds Proofs.Float32Proofs Proofs.Float32Enclosure Proofs.SearchProofs.
 Import ListNotations.
 
 (* rtreeValueDown / rtreeValueUp never invert an order: for all doubles x <= y (Go's comparison,
@@ -19,9 +20,25 @@ Theorem c02_overlap_preserved : forall a b : rect64, overlap64 a b ->
 Proof. exact overlap_rounded. Qed.
 Print Assumptions c02_overlap_preserved.
 
-(* The literal "outward rounding" (down x <= x <= up x) is false outside the float32 normal range;
-   the index needs only the monotonicity above. (For |x| inside the normal float32 range the
-   enclosure is checked by the harness on the Go functions, not proved.) *)
+(* "Outward rounding" in the literal sense, where it holds: for every finite double whose magnitude
+   is at least the smallest normal float32 (2^-126) and whose float32 conversion does not overflow,
+   rtreeValueDown x <= x <= rtreeValueUp x (real-valued, +-Inf read as +-2^128; and with the
+   comparisons Go itself would evaluate after converting back to float64). *)
+Theorem c02_enclosure_normal_range : forall x : f64,
+  is_finite x = true -> (bpow radix2 (-126) <= Rabs (B2R x))%R -> is_finite (to32 x) = true ->
+  is_nan (down x) = false /\ is_nan (up x) = false /\
+  (ext32 (down x) <= B2R x <= ext32 (up x))%R.
+Proof. exact enclosure_normal_range. Qed.
+Print Assumptions c02_enclosure_normal_range.
+
+Theorem c02_enclosure_normal_range_bool : forall x : f64,
+  is_finite x = true -> (bpow radix2 (-126) <= Rabs (B2R x))%R -> is_finite (to32 x) = true ->
+  le64 (to64 (down x)) x = true /\ le64 x (to64 (up x)) = true.
+Proof. exact enclosure_normal_range_bool. Qed.
+Print Assumptions c02_enclosure_normal_range_bool.
+
+(* Outside that range it is false (subnormal float32 range / beyond MaxFloat32); the index needs only
+   the monotonicity above. *)
 Theorem c02_enclosure_refuted :
   (exists x : f64, is_nan x = false /\ le64 (to64 (down x)) x = false) /\
   (exists x : f64, is_nan x = false /\ le64 x (to64 (up x)) = false).
@@ -38,21 +55,35 @@ Theorem c02_search_exact : forall (Q : Type) (qrect : Q -> rect64) (hits : obj -
 Proof. exact search_exact. Qed.
 Print Assumptions c02_search_exact.
 
-(* ... and if strings and empty geometries never satisfy the predicate, that is exactly the set of
-   retrievable objects for which the index-free evaluation (TEST) holds, without duplicates. *)
+(* ... and that is exactly the set of retrievable objects for which TEST holds, without duplicates.
+   TEST evaluates the predicate through expression.go testObject, which (since the repair
+   proposed_fixes/C02-test-empty-geometry.diff) answers false for an empty geometry before calling
+   the library — test_hits. The oracle hypotheses are only about non-empty geometries: the predicate
+   implies overlapping bounding rectangles, and a non-spatial object never satisfies it. *)
 Theorem c02_search_equals_test : forall (Q : Type) (qrect : Q -> rect64) (hits : obj -> Q -> bool) c q,
+  Wf c ->
+  (forall o, o_empty o = false -> hits o q = true -> overlap64 (o_rect o) (qrect q)) ->
+  (forall o, o_empty o = false -> hits o q = true -> o_spatial o = true) ->
+  (forall o, In o (search Q qrect hits c q) <-> In o (test_spec Q hits c q)) /\
+  NoDup (map o_id (search Q qrect hits c q)).
+Proof. exact search_equals_test. Qed.
+Print Assumptions c02_search_equals_test.
+
+(* The statement for the raw library predicate (TEST before the repair) needs the extra hypothesis
+   "only non-empty geometries satisfy the predicate" ... *)
+Theorem c02_search_equals_raw_predicate : forall (Q : Type) (qrect : Q -> rect64) (hits : obj -> Q -> bool) c q,
   Wf c ->
   (forall o, hits o q = true -> overlap64 (o_rect o) (qrect q)) ->
   (forall o, hits o q = true -> o_spatial o = true /\ o_empty o = false) ->
   (forall o, In o (search Q qrect hits c q) <-> In o (search_spec Q hits c q)) /\
   NoDup (map o_id (search Q qrect hits c q)).
 Proof. exact search_spec_equiv. Qed.
-Print Assumptions c02_search_equals_test.
+Print Assumptions c02_search_equals_raw_predicate.
 
-(* Known finding C02-empty-in-circle: the hypothesis "only non-empty geometries satisfy the
-   predicate" cannot be dropped — with a predicate that is vacuously true on an empty geometry
-   (tidwall/geojson Circle.Contains on an empty FeatureCollection) the index-free evaluation holds
-   for an object the index never returns. *)
+(* ... which cannot be dropped, and which tidwall/geojson violates (Circle.Contains is vacuously
+   true for an empty FeatureCollection): with such a predicate the raw index-free evaluation holds for
+   an object the index never returns. This was finding C02-empty-in-circle; the repaired TEST applies
+   the empty rule itself (previous theorem). *)
 Theorem c02_kind_hypothesis_needed :
   exists c q, Wf c /\
     (forall o, In o (scan_ids c) -> vacuous_hits o q = true -> overlap64 (o_rect o) q) /\
@@ -76,6 +107,15 @@ Theorem c02_sparse_sound : forall (Q : Type) (qrect : Q -> rect64) (hits : obj -
 Proof. exact sparse_sound. Qed.
 Print Assumptions c02_sparse_sound.
 
+(* the same for the quad split geoSparseInner actually performs (float64 w/2, h/2 arithmetic,
+   depth-first, 4^n leaves) *)
+Theorem c02_sparse_sound_quads : forall (Q : Type) (qrect : Q -> rect64) (hits : obj -> Q -> bool) c q n,
+  Wf c ->
+  (forall o, In o (sparse_search Q qrect hits quad_leaves c q n) -> hits o q = true /\ In o (spatial_list c)) /\
+  NoDup (map o_id (sparse_search Q qrect hits quad_leaves c q n)).
+Proof. exact sparse_sound_quads. Qed.
+Print Assumptions c02_sparse_sound_quads.
+
 (* an all-NaN query rectangle returns nothing (the guard of geoSearch) *)
 Theorem c02_nan_guard : forall sp qr,
   is_nan (r64_minx qr) = true -> is_nan (r64_miny qr) = true ->
@@ -98,3 +138,13 @@ Example c02_nonvacuous :
 Proof.
   split; [exact box_hits_overlap|]. split; [exact box_hits_kind|]. vm_compute. repeat split; reflexivity.
 Qed.
+
+(* non-vacuity of the enclosure hypotheses (x = 100.000002, not a float32) and the repaired TEST on
+   the vacuously-true predicate: the empty FeatureCollection is no longer reported *)
+Example c02_enclosure_nonvacuous :
+  let x := f64_of_bits 4636737291495373776 in
+  is_finite x = true /\ is_finite (to32 x) = true /\
+  le64 (f64_of_bits 4039728865751334912) x = true /\       (* 2^-126 <= x *)
+  bits_of_f32 (down x) = 1120403456%Z /\ bits_of_f32 (up x) = 1120403458%Z /\
+  test_spec rect64 vacuous_hits (run [OSet empty_fc]) (rect64_of_bits 0 0 0 0) = [].
+Proof. vm_compute. repeat split; reflexivity. Qed.
